@@ -22,8 +22,10 @@ GUARDS = {'all': {'boundary': 0.01}}
 
 @st.composite
 def cases(draw, tier):
-    case = draw(gen.election_cases(tier=tier, equal_for_meek=False))
     d = D(draw)
+    if d.p(3):
+        return gen.fractional_landing_case(d)
+    case = draw(gen.election_cases(tier=tier, equal_for_meek=False))
     if d.p(35):
         # force a quota landing at the first stage
         s1 = case['nseats'] + 1
